@@ -260,6 +260,11 @@ class Check:
         self._distinct = set()
         self.known = load_known_findings(prop)
         self.known_hit = {}
+        for old in glob.glob(os.path.join(VERIF, "replays", f"{prop}-*.json")):
+            try:
+                os.remove(old)
+            except OSError:
+                pass
 
     # --- counting
     def count_case(self, case, nontrivial: bool):
